@@ -1148,7 +1148,8 @@ func (h *c16H) waitFor(c *c16Cli, what string, cond func() bool) bool {
 // Client of this connection is marked disconnected (white box): no answers any
 // more. Whether the broker was entitled to close it is judged elsewhere.
 func (h *c16H) closedAtWatch(c *c16Cli) bool {
-	if h.st == nil || h.st.breaks == 0 {
+	if h.st == nil || h.st.breaks == 0 || h.admin {
+		// (after the final admin delete the harness waits for the very closure)
 		return false
 	}
 	cl := h.clOf[c.cid]
